@@ -930,7 +930,7 @@ impl WorldGen {
         // settle the stake transfers so that the LST is with the users
         let flying: Vec<u64> = self.w.chain.packets.values().filter(|p| p.state == crate::world::PState::Flight).map(|p| p.seq).collect();
         for q in flying {
-            self.w.relay(q, "ack_ok");
+            self.w.relay(q, "ok");
         }
         let big = self.w.chain.bal(&a, &lst).min(900_000);
         if big == 0 || self.w.chain.bal(&b, &lst) == 0 {
@@ -1085,7 +1085,7 @@ impl WorldGen {
         }
         let flying: Vec<u64> = self.w.chain.packets.values().filter(|p| p.state == crate::world::PState::Flight).map(|p| p.seq).collect();
         for q in flying {
-            let o = if self.r.chance(50) { "ack_err" } else { "timeout" };
+            let o = if self.r.chance(50) { "err" } else { "timeout" };
             self.w.tick(1_000_000_000);
             self.w.relay(q, o);
         }
